@@ -118,3 +118,84 @@ def run(ctx, report, folder, documents, clause_order="1", clause_nothrow="2"):
     report.check(e == ("raise", "CaptionReadNoCaptions"), "R-DOMINATES", sn.fmt,
                  "the empty string raises CaptionReadNoCaptions", {"folded_result": e}, clause_order)
     return sn
+
+
+# ---------------------------------------------------------------------------
+def own_output(ctx, report, sn, clause="3"):
+    """writers and readers folded back to back: what a (text) writer produces is claimed by its own reader first,
+    and that reader reads it"""
+    import ast
+    from . import scc_e2e_fold
+    from ..core.constfold import Folder
+    F = Folder(ctx.index)
+    F.object_classes = scc_e2e_fold.OBJECTS
+
+    def ev(text, **local):
+        return F.eval_in("pycaption.base", ast.parse(text, mode="eval").body, local)
+
+    def caption(s, e, lines):
+        nodes = []
+        for i, l in enumerate(lines):
+            if i:
+                nodes.append(ev("CaptionNode.create_break()"))
+            nodes.append(ev("CaptionNode.create_text(t)", t=l))
+        return ev("Caption(s, e, n)", s=s, e=e, n=nodes)
+    S = 1000000
+    sets = {
+        "one cue": {"en-US": [(S, 2 * S, ["hello"])]},
+        "two cues, two lines": {"en-US": [(S, 2 * S, ["hello", "there"]), (5 * S, 7 * S, ["bye"])]},
+        "a cue inside the second frame": {"en-US": [(45000, 70000, ["Line 0"]), (S, 2 * S, ["Line 1"])]},
+        "a number as text": {"en-US": [(S, 2 * S, ["42"]), (5 * S, 7 * S, ["7"])]},
+        "two languages": {"en-US": [(S, 2 * S, ["hello"])], "fr": [(S, 2 * S, ["bonjour"])]},
+    }
+    pairs = [("SRTWriter", "pycaption/srt.py", "SRTReader"), ("WebVTTWriter", "pycaption/webvtt.py", "WebVTTReader"),
+             ("MicroDVDWriter", "pycaption/microdvd.py", "MicroDVDReader"), ("SCCWriter", "pycaption/scc/__init__.py", "SCCReader")]
+    for wname, path, rname in pairs:
+        wfn = ctx.index.get_function(path, f"{wname}.write")
+        rfn = ctx.index.get_function(path, f"{rname}.read")
+        report.covered(wfn)
+        report.covered(rfn)
+        not_first, unreadable = [], []
+        for label, langs in sets.items():
+            cs = ev("CaptionSet(d)", d={l: ev("CaptionList(cs)", cs=[caption(*c) for c in caps]) for l, caps in langs.items()})
+            try:
+                w = Stub("writer", {}, cls=wfn.cls)
+                winit = wfn.cls.find_method("__init__")
+                if winit is not None:
+                    F.call_function(winit, [], {}, self_value=w)
+                doc = F.call_function(wfn, [cs], {}, self_value=w)
+            except FoldRaise as e:
+                unreadable.append({"caption_set": label, "writer_raises": e.exc_name or str(e)})
+                continue
+            except AnalysisError as e:
+                raise AnalysisError(f"{wname}.write cannot be folded on a small caption set: {e}")
+            if not isinstance(doc, str):
+                raise AnalysisError(f"{wname}.write: folded result is not a string")
+            first = next((r for r in ORDER if sn.accepts(r, doc) is True), None)
+            if first != rname:
+                not_first.append({"caption_set": label, "document": doc[:120], "claimed_by": first})
+                continue
+            me = Stub("reader", {}, cls=rfn.cls)
+            try:
+                init = rfn.cls.find_method("__init__")
+                if init is not None:
+                    F.call_function(init, [], {}, self_value=me)
+                r = F.call_function(rfn, [doc], {}, self_value=me)
+            except FoldRaise as e:
+                unreadable.append({"caption_set": label, "document": doc[:120], "reader_raises": f"{e.exc_name}: {e}"[:120]})
+                continue
+            except AnalysisError as e:
+                raise AnalysisError(f"{rname}.read cannot be folded on {wname}'s output: {e}")
+            caps = list(r.attrs["_captions"].values())[0] if isinstance(r, Stub) and isinstance(r.attrs.get("_captions"), dict) \
+                and r.attrs["_captions"] else None
+            if caps is None:
+                raise AnalysisError(f"{rname}.read: folded result is not a CaptionSet")
+            n_read = len(caps.attrs["__list__"]) if isinstance(caps, Stub) else len(caps)
+            n_first = len(list(langs.values())[0])
+            if n_read < n_first:
+                unreadable.append({"caption_set": label, "document": doc[:120], "captions_read": n_read,
+                                   "captions_of_the_first_language": n_first})
+        report.check(not not_first, "R-MARKER", wfn, f"{wname}'s output is claimed by {rname} before any other reader",
+                     {"caption_sets": len(sets), "mismatches": not_first[:3]}, clause)
+        report.check(not unreadable, "R-READS-OWN", rfn, f"{rname} reads {wname}'s output (no error, no cue of the first "
+                     "language lost)", {"caption_sets": len(sets), "mismatches": unreadable[:3]}, clause)
